@@ -338,6 +338,7 @@ def forms(kids):
         out.append(("bin", op, k(0), k(1)))
     out.append(("cond", k(0), k(1), k(2)))
     out.append(("smember", k(0), "p"))
+    out.append(("smember", k(0), "length"))      # an inherited property: exists on '' (falsy, not nullish)
     out.append(("dmember", k(0), k(1)))
     out.append(("call", k(0), []))
     out.append(("call", k(0), [k(1)]))
@@ -346,6 +347,9 @@ def forms(kids):
     out.append(("obj", [("named", "p", False, k(0)), ("named", "q", False, k(1))]))
     out.append(("obj", [("spread", k(0))]))
     out.append(("obj", [("named", "p", False, k(0)), ("spread", k(1)), ("named", "q", False, k(2))]))
+    out.append(("obj", [("named", "p", False, k(0)), ("named", "q", False, ("int", 1)), ("named", "r", False, k(1))]))
+    out.append(("obj", [("named", "p", False, ("int", 1)), ("named", "q", False, k(0)), ("named", "r", False, ("str", "c", '"')), ("named", "s", False, k(1))]))
+    out.append(("arr", [("item", k(0)), ("item", ("int", 1)), ("item", k(1))]))
     out.append(("arr", [("item", k(0))]))
     out.append(("arr", [("item", k(0)), ("item", k(1))]))
     out.append(("arr", [("hole",), ("item", k(0))]))
@@ -389,7 +393,7 @@ def rand_tree(rng, depth, nscopes=1):
         if c == 6:
             return ("int", rng.choice([0, 1, 2, 7, 10, 255, 2 ** 31, 2 ** 53 + 1, 9007199254740993]))
         if c == 7:
-            return ("str", rng.choice(["", "s", "a b", "\"", "'", "\\", "\n", "é", "\U0001F600", "\0", "{{", "}}", "<a>", "&amp;"]), rng.choice(['"', "'"]))
+            return ("str", rng.choice(["", "s", "a b", "\"", "'", "\\", "\n", "é", "\U0001F600", "\0", "{{", "}}", "<a>", "&amp;", "length", "toFixed"]), rng.choice(['"', "'"]))
         if c == 8:
             return ("bool", rng.chance(1, 2))
         if c == 9:
